@@ -222,6 +222,23 @@ def run(prop, tier, seed, replay=None):
     evaluations += lines_c * len(pv)
     report(V, badc, pv, uv, "value geometry")
 
+    # (d) more results than any internal page or ceiling: one author with 520 events, limits above 500 and none at all
+    mpath = S.universe_path("many")
+    um = json.load(open(mpath))
+    tx = [i for i, x in enumerate(um["strs"]) if bytes.fromhex(x) == b"t"][0], [i for i, x in enumerate(um["strs"]) if bytes.fromhex(x) == b"x"][0]
+    pm = [FL.flt(authors=[1]), FL.flt(authors=[1], limit=510), FL.flt(kinds=[1], limit=501), FL.flt(kinds=[1]), FL.flt(since=10, until=515),
+          FL.flt(tags=[(tx[0], [tx[1]])]), FL.flt(authors=[1, 2], kinds=[1], limit=519), FL.flt(authors=[1], tags=[(tx[0], [tx[1]])]),
+          FL.flt(ids=list(range(1, 521)))]
+    mfp = os.path.join(wd, "probes_many.json")
+    json.dump(pm, open(mfp, "w"))
+    mh = [[{"k": "store", "a": i} for i in range(1, um["n"] + 1)] + [{"k": "queries", "a": 0, "b": len(pm)}, {"k": "remove", "a": 520},
+                                                                     {"k": "queries", "a": 0, "b": len(pm)}]]
+    tfd = S.run_storedrv2(bindir, mpath, mh, wd, "qd", mfp, no_probe=True, shards=1)
+    badd, lines_d = judge_q(mpath, tfd, mfp)
+    C.log("[C05] (d) many results: %d lines, %d probes, %d failing answers" % (lines_d, len(pm), len(badd)))
+    evaluations += 2 * len(pm)
+    report(V, badd, pm, um, "many results")
+
     plans = {}
     for f in filters:
         k = plan_of(f) + ":" + feature_of(f)
